@@ -48,7 +48,7 @@ StepInv ==   \* name of the first property that fails in the step just taken, ""
 TrIter ==
   /\ IsEvent("Iter")
   /\ \E inv \in BOOLEAN, fail \in BOOLEAN :
-       /\ Iterate(Ev.rcv, SrcOfEvt(Ev.newevt), FreeOf(Ev.wire), FreeOf(Ev.ind), inv, fail, MsgIndOf(Ev.ind))
+       /\ Iterate(Ev.rcv, SrcOfEvt(Ev.newevt), FreeOf(Ev.wire), FreeOf(Ev.ind), inv, fail, MsgIndOf(Ev.ind), Ev.sendfail)
        \* a grey frame taken as invalid must show up as Evt19, otherwise as its type's event
        /\ (Ev.newevt # 0 /\ SrcOfEvt(Ev.newevt) = "frame") =>
               Ev.newevt = (IF Head(stream).grey /\ inv THEN 19 ELSE EvtOfPdu(Head(stream).k))
@@ -68,10 +68,9 @@ TrIter ==
 TrPeerSend == IsEvent("PeerSend") /\ PeerSend(Ev.frames, Ev.n)
 TrArrive   == IsEvent("Arrive") /\ Arrive(Ev.n)
 TrPeerFin  == IsEvent("PeerFin") /\ PeerFin
-TrPeerReset == IsEvent("PeerReset") /\ ~peerFin /\ peerFin' = TRUE /\ transit' = 0 /\ rx' = 0 /\ out' = NoOut
-               /\ UNCHANGED <<isReq, st, sock, stream, raw, nid, evq, slot, uq, gen, artim, dec, user, ended>>
+TrPeerReset == IsEvent("PeerReset") /\ PeerReset
 TrUserPut  == IsEvent("UserPut") /\ UserPut(Ev.item)
-Idle       == out' = NoOut /\ UNCHANGED <<isReq, st, sock, stream, transit, rx, raw, peerFin, nid, evq, slot, uq, gen, artim, dec, user, ended>>
+Idle       == out' = NoOut /\ UNCHANGED <<isReq, st, sock, stream, transit, rx, raw, peerFin, wdead, nid, evq, slot, uq, gen, artim, dec, user, ended>>
 TrTick     == IsEvent("Tick") /\ (IF artim = "run" THEN Tick ELSE Idle)
 TrTock     == IsEvent("Tock") /\ Idle      \* time advances without reaching the ARTIM limit
 
